@@ -149,3 +149,58 @@ def rule_dim1(prog, rep, units, rid='DIM1'):
             for v, w in sorted(dim.items()):
                 rep.instance(rid)
                 rep.oblige(rid, True, {'function': f.name, 'element_count': v, 'element_size': w})
+
+
+def rule_wid1(prog, rep, units, rid='WID1'):
+    """Narrow arithmetic widened too late.  `wide += (uint32_t) x << k` (or `* k`) performs the shift in 32 bits and only then
+    converts the result to the 64-bit type of the accumulator: the bits shifted out of the 32-bit value are lost before the
+    widening.  The rule reports an ImplicitCastExpr (IntegralCast) from a <= 32-bit type to a 64-bit type whose operand is a left
+    shift / multiplication of a non-constant 32-bit value - unless the shifted operand is provably small (a byte-typed value or
+    a masked value that still fits after the shift)."""
+    rep.rule(rid, 'a left shift or multiplication of a 32-bit value is not widened to 64 bits only afterwards (the high bits would be lost '
+                  'before the conversion), unless the operand provably fits')
+    from .valgraph import width_of
+    for unit in units:
+        prog.unit(unit)
+        for f in sorted(prog.funcs_in(unit), key=lambda x: x.line or 0):
+            if f.body is None:
+                continue
+            for x in walk(f.body):
+                if x.get('kind') != 'ImplicitCastExpr' or x.get('castKind') != 'IntegralCast':
+                    continue
+                if width_of(x) != 64:
+                    continue
+                inner = x['inner'][0] if x.get('inner') else None
+                while inner is not None and inner.get('kind') == 'ParenExpr':
+                    inner = inner['inner'][0]
+                if inner is None or inner.get('kind') != 'BinaryOperator' or inner.get('opcode') not in ('<<', '*'):
+                    continue
+                if width_of(inner) > 32:
+                    continue
+                a, b = children(inner)
+                if isinstance(int_value(a), int) and isinstance(int_value(b), int):
+                    continue
+                rep.instance(rid)
+                # operand provably small: byte-typed operand shifted by <= 24, or masked
+                ok = False
+                sa = a
+                while sa.get('kind') in ('ImplicitCastExpr', 'ParenExpr', 'CStyleCastExpr') and sa.get('inner'):
+                    t_ = (qtype(sa) or '')
+                    sa = sa['inner'][0]
+                opw = width_of(sa)
+                sh = int_value(b)
+                if inner.get('opcode') == '<<' and isinstance(sh, int) and opw + sh <= 31:
+                    ok = True
+                if inner.get('opcode') == '*' and isinstance(int_value(b), int) and opw <= 16 and int_value(b) < 65536:
+                    ok = True
+                sa2 = strip_parens(strip(a))
+                if sa2.get('kind') == 'BinaryOperator' and sa2.get('opcode') == '&' and inner.get('opcode') == '<<' and isinstance(sh, int):
+                    ms = [int_value(c) for c in children(sa2) if isinstance(int_value(c), int)]
+                    if ms and (min(ms) << sh) < (1 << 32):
+                        ok = True
+                rep.oblige(rid, ok, {'function': f.name, 'line': x.get('_line'), 'expr': canon(inner)[:50]})
+                if not ok:
+                    rep.violation(rid, f, x.get('_line'), 'narrow:%s' % canon(inner)[:24],
+                                  '%s: %s is computed in %d bits and only then converted to 64 bits: the bits the %s pushes beyond bit 31 '
+                                  'are lost before the widening' % (f.name, canon(inner)[:50], width_of(inner),
+                                                                    'shift' if inner.get('opcode') == '<<' else 'multiplication'))
